@@ -278,6 +278,8 @@ func c05Match(c *vrep.Ctx) {
 		docs = vDocPool(c.Pick(8, 40))
 	case "notices":
 		docs = vDocPool(c.Pick(4, 24))
+	case "quotedwords":
+		docs = vDocPool(c.Pick(2, 8))
 	case "prefixquote":
 		docs = vDocPool(c.Pick(3, 12))
 	case "longwords":
@@ -297,7 +299,7 @@ func c05Match(c *vrep.Ctx) {
 		scNames = append(scNames, n)
 	}
 	sort.Strings(scNames)
-	c.R.Rule = fmt.Sprintf("Match level, mode %s: documents in OOV context x %d transform kinds (global: all eligible lines; perline: one line at a time on documents of <=30 lines; pairs: all ordered pairs of kinds; scenarios: the 41 scenario files; notices: a copyright notice with quotes / apostrophes / hyphens in its lead in front of the document; longwords: one word of every length 60..300 bytes made of quoted / hyphenated pieces before or inside the document; prefixquote: the document behind about 2^10..2^13 distinct words, one of two identical quoted lines in front transformed); multiset of (type, name, variant, confidence, token span, mapped lines) must be equal; non-trivial = distinct (document, transform...) cases where the untransformed input has a non-Copyright match and the transform changed the bytes", mode, len(vTransforms))
+	c.R.Rule = fmt.Sprintf("Match level, mode %s: documents in OOV context x %d transform kinds (global: all eligible lines; perline: one line at a time on documents of <=30 lines; pairs: all ordered pairs of kinds; scenarios: the 41 scenario files; notices: a copyright notice with quotes / apostrophes / hyphens in its lead in front of the document; longwords: one word of every length 60..300 bytes made of quoted / hyphenated pieces before or inside the document; quotedwords: lines with every variant spelling in quotes and punctuation in front of the document; prefixquote: the document behind about 2^10..2^13 distinct words, one of two identical quoted lines in front transformed); multiset of (type, name, variant, confidence, token span, mapped lines) must be equal; non-trivial = distinct (document, transform...) cases where the untransformed input has a non-Copyright match and the transform changed the bytes", mode, len(vTransforms))
 	c.Bound("documents", len(docs))
 	c.Bound("mode", mode)
 	body := func(r *vx.Run) {
@@ -310,6 +312,17 @@ func c05Match(c *vrep.Ctx) {
 			d := docs[r.Choose(len(docs), "doc")]
 			base = vOOVBlock(2, 5, 0) + string(d.Bytes) + "\n" + vOOVBlock(1, 4, 30)
 			id = d.Key
+			if mode == "quotedwords" {
+				// every spelling the tokenizer maps to another one, wrapped in quotes and followed by
+				// punctuation (the raw word grows by two bytes per quote when the quotes become typographic)
+				var sb strings.Builder
+				sb.WriteString(vOOVBlock(2, 5, 0))
+				for i, pr := range c06SpellingPairs() {
+					fmt.Fprintf(&sb, "the \"%s\", and '%s'. (\"%s\"); %s-\"%s\"\n", pr[0], pr[1], strings.ToUpper(pr[0][:1])+pr[0][1:], vOOV(i), pr[1])
+				}
+				base = sb.String() + string(d.Bytes) + "\n" + vOOVBlock(1, 4, 30)
+				id = d.Key + "|behind lines of quoted spellings"
+			}
 			if mode == "prefixquote" {
 				// two identical lines with a quoted word, then a run of N pairwise different words (lines
 				// of 9), then the document; ONE of the two quoted lines is transformed (a spelling more or
@@ -410,6 +423,12 @@ func c05Match(c *vrep.Ctx) {
 		msg := ""
 		if strings.Join(want, "\n") != strings.Join(got, "\n") {
 			msg = fmt.Sprintf("original %v, transformed %v; first token difference: %s", want, got, tokensEqual(base, cur, lineMap))
+		}
+		if mode == "quotedwords" && msg == "" {
+			// the lines in front of the document are not part of any match: compare the words themselves
+			if d := tokensEqual(base, cur, lineMap); d != "" {
+				msg = "the (word, line) sequences differ: " + d
+			}
 		}
 		nm := 0
 		for _, m := range r0.Matches {
